@@ -58,6 +58,9 @@ def patched_rng(r):
     import importlib
 
     saved = []
+    # import every module first: a module imported while passlib.utils.rng is already replaced would bind the replacement for good
+    for modname, _ in PATCH_POINTS:
+        importlib.import_module(modname)
     for modname, attr in PATCH_POINTS:
         mod = importlib.import_module(modname)
         if hasattr(mod, attr):
